@@ -56,6 +56,10 @@ T = [
     "any(string(1) for string in [r.c.fire])", "any(net.ipv4.Subnet(1) for net in [r.c])", "any(varint() for varint in [r.c.fire])",
     "any(net.ipaddress('1.1.1.1') for net in [r.c])", "any(path() for path in (r.c.fire,))", "all(digest() for digest in [r.s.upper])",
     "1 in (f() for f in [r.c.fire])", "1 not in (f() for f in [r.c.fire])",
+    # no call syntax at all: typed matchers and attribute reads must not invoke what they find
+    "Type.dynamic.fire == 1", "Type.dynamic.fire", "'x' in Type.dynamic.fire", "Type.string.upper == 'X'", "Type.string.fire != None", "1 in Type.dynamic.anything",
+    "r.c.fire == 1", "r.c.fire", "r.s.upper == 'ABC'", "r.l.clear == None", "Type.dynamic.fire in [1, True]", "field_contains(r, Type.dynamic.fire, ['a'])",
+    "str(Type.dynamic.fire)", "any(x == 1 for x in Type.dynamic)", "r.sub.c.fire == 1", "Type.dynamic.fire == r.c.fire",
     # whitelisted helper names reached as attributes
     "r.c.lower()", "'A'.lower()", "r.s.lower()", "r.c.name()", "r.c.str()", "r.s.upper.lower()", "r.c.any()", "r.c.field_contains()",
     "r.sub.c.lower()", "lower(r.s).lower()", "r.c.names()", "r.c.has_field('x')", "r.l.all()", "r.c.repr()",
@@ -91,9 +95,16 @@ def classify(expr):
         tree = ast.parse(expr, mode="eval")
     except SyntaxError:
         return "refused"
+    bound = {g.target.id for n in ast.walk(tree) if isinstance(n, ast.GeneratorExp) for g in n.generators if isinstance(g.target, ast.Name)}
     for node in ast.walk(tree):
         if isinstance(node, ast.Lambda):
             return "refused"
+        if isinstance(node, ast.Call):
+            root = node.func
+            while isinstance(root, ast.Attribute):
+                root = root.value
+            if isinstance(root, ast.Name) and root.id in bound:
+                return "refused"  # the call target is (rooted at) a generator variable, whatever it is named
         if isinstance(node, ast.Attribute) and node.attr.startswith("__"):
             return "refused"
         if isinstance(node, ast.Name) and node.id.startswith("__"):
@@ -263,6 +274,11 @@ def run_case(case):
         after = obs(rec)
         outs.append("%s:%s:%s" % (label, "raise" if raised is not None else "value", "EVENT" if events or trip else "quiet"))
         sig_t = case["t_class"] + (":explain" if case.get("door") == "explain" else "")
+        if label == "allowed":
+            # nothing but the whitelisted helpers' own string handling may run: no method of a field value is ever invoked
+            foreign = [e for e in events if e not in ("CanaryStr.lower", "CanaryStr.upper")]
+            if foreign or trip:
+                viol.append(("C09:invoked-without-call-syntax:%s:%s" % (sig_t, (foreign or ["tripwire"])[0]), case, {"expr": expr, "events": events[:5], "record": i}))
         if label == "refused":
             if events or trip:
                 viol.append(("C09:invoked:%s:%s" % (sig_t, (events or ["tripwire"])[0]), case, {"expr": expr, "events": events[:5], "record": i,
@@ -323,6 +339,8 @@ PURE = [  # allowed programs: every helper on every kind of field; the record mu
     "field_contains(r, ['ml'], ['alpha'])", "field_equals(r, ['ml', 'm'], ['ALPHA'])", "field_contains(r, ['m', 'ml'], ['Be'], nocase=False)",
     "field_regex(r, ['m'], 'M.x')", "field_contains(r, ['m'], ['mix'], word_boundary=True)", "any(x == 'Alpha' for x in r.ml)", "all(lower(x) for x in r.ml)",
     "name(r)", "names(r)", "get_type(r.ml)", "has_field(r, 'ml')", "r.ml + ['x'] == 1", "r.ml * 2 == 1", "r.m + 'x' == 1", "r.ml == r.ml", "r.sub.ml == ['Q']",
+    "field_contains(r, ['m'], r.ml)", "field_equals(r, ['m'], r.ml)", "field_contains(r, ['m'], r.sub.ml)", "field_equals(r, ['m', 'zz'], r.ml, nocase=True)",
+    "field_contains(r, r.ml, r.ml)", "field_regex(r, r.ml, 'x')",
     "lower(r.sub.ml)", "upper(r.sub.m)", "field_contains(r.sub, ['ml'], ['q'])", "Type.string == 'MiX'", "'Mi' in Type.string", "field_equals(r, Type.string, ['mix'])",
     "any(lower(x) == 'beta' for x in r.ml) and any(upper(x) == 'ALPHA' for x in r.ml)", "fields('string')", "r.ml and r.m", "not r.ml", "r.n + 1 == 2",
     "net.ipaddress('1.2.3.4') == r.ml", "string('x') in r.ml", "r.ml in [r.ml]", "(r.ml, r.m) == 1", "[r.ml] == 1",
